@@ -69,6 +69,12 @@ def check_seq(items, cont='list', via='from_bytes', text=None):
         if all_int:
             return [fail('wrong-exception', f'{items[:10]} ({via}/{cont}): {exc!r}', exc=exc_sig(exc))]
         return []
+    except BytesWarning as exc:
+        # `python -bb` makes ANY comparison of a bytes object with an int raise: when an ITEM of the sequence is itself
+        # a bytes object, that is the interpreter refusing the item (the TypeError case), not mido's choice of exception
+        if any(isinstance(x, (bytes, bytearray)) for x in items):
+            return []
+        return [fail('wrong-exception', f'{items[:10]} ({via}/{cont}): {exc!r}', exc=exc_sig(exc))]
     except Exception as exc:  # noqa: BLE001
         return [fail('wrong-exception', f'{items[:10]} ({via}/{cont}): {exc!r}', exc=exc_sig(exc))]
     if not well:
